@@ -69,7 +69,7 @@ func loadModule(name string, verbose bool) *World {
 		fmt.Fprintln(os.Stderr, "unknown module", name)
 		os.Exit(2)
 	}
-	w, err := loadWorld(m, filepath.Join(verifDir, "contracts", "extern"), Options{InlineDepth: 6, Verbose: verbose})
+	w, err := loadWorld(m, filepath.Join(verifDir, "contracts", "extern"), Options{InlineDepth: 6, Verbose: verbose, ReachBlocks: os.Getenv("GOCV_REACH") == "blocks"})
 	if err != nil {
 		fmt.Fprintln(os.Stderr, err)
 		os.Exit(2)
@@ -94,16 +94,27 @@ func solveAll(obls []*Obligation, outDir string, tmo int, mode string) {
 			return
 		}
 		o.SMT = o.c.emit([]string{o.PC}, o.Goal, !o.Cover)
-		if o.Cover {
+		if o.Cover || o.Reach {
 			o.SMT = o.c.emit([]string{o.PC}, "true", false)
 		}
 		o.File = filepath.Join(outDir, fmt.Sprintf("o%04d.smt2", i))
 		os.WriteFile(o.File, []byte(o.SMT), 0o644)
+		if o.Reach {
+			t := tmo
+			if t > 1 {
+				t = 1
+			}
+			o.Res = solve(o.File, t, "reach")
+			return
+		}
 		o.Res = solve(o.File, tmo, mode)
 	})
 }
 
 func (o *Obligation) ok() bool {
+	if o.Reach {
+		return o.Res.Status != "unsat" && o.Res.Status != "error"
+	}
 	if o.Cover {
 		return o.Res.Status == "sat"
 	}
@@ -117,6 +128,7 @@ func cmdFn(args []string) {
 	verbose := fs.Bool("v", false, "verbose (panics propagate)")
 	keep := fs.String("keep", "", "directory to keep SMT files")
 	only := fs.String("only", "", "substring filter on obligation names")
+	vac := fs.Bool("vac", false, "also check that each obligation's path condition is satisfiable")
 	fs.Parse(args)
 	w := loadModule(*mod, *verbose)
 	t0 := time.Now()
@@ -157,6 +169,16 @@ func cmdFn(args []string) {
 				fmt.Printf("  %s %-8s %-70s %s %s %.2fs %v\n", mark, o.Kind, o.Name, o.Res.Status, o.Res.Solver, o.Res.TimeS, o.Tags)
 				if !o.ok() && o.Res.Output != "" {
 					fmt.Println("       ", firstLines(o.Res.Output, 2))
+				}
+				if *vac && o.Static == "" {
+					f := o.File + ".cover.smt2"
+					os.WriteFile(f, []byte(o.c.emit([]string{o.PC}, "true", false)), 0o644)
+					r := solve(f, *tmo, "first")
+					if r.Status == "unsat" {
+						fmt.Println("        VACUOUS: path condition is unsatisfiable")
+					} else {
+						fmt.Println("        pc:", r.Status)
+					}
 				}
 			}
 			if len(rep.UsedDefault) > 0 {
